@@ -167,7 +167,22 @@ def case_rule(rnd, rho1, rho2, acc, sample=False, forced=None):
         skind, okind = rnd.choice(["named", "named", "sub"]), rnd.choice(["named", "named", "sub"])
         subs = rnd.sample(names, min(len(names), rnd.randint(1, 3)))
         objs = rnd.sample(names, min(len(names), rnd.randint(1, 3)))
-        if rnd.random() < 0.2:
+        nonid = [c for c in ABSTRACT[1:] if rho2[c] in NON_IDENTIFIER or not rho2[c].isidentifier()]
+        if rnd.random() < 0.1 and rho2["c0"] == "a":
+            # 'anything' over [P, a sibling of P, a sub package of P]: the sibling's adversarial name extends P's name by a
+            # character that sorts below "." (a-old, a (copy)) or by a plain letter; a module below the sub package imports P
+            sib = rnd.choice(nonid) if nonid and rnd.random() < 0.7 else rnd.choice(ABSTRACT[1:5])
+            inner, leaf, other = [c for c in ABSTRACT[1:] if c != sib][:3]
+            mods = ["r", "r.c0", f"r.c0.{inner}", f"r.c0.{inner}.{leaf}", f"r.c0.{other}", f"r.{sib}", f"r.{sib}.{leaf}"]
+            d_ = rnd.choice(rrule.DIRS)
+            edge = (f"r.c0.{inner}.{leaf}", "r.c0") if d_ == "import" else ("r.c0", f"r.c0.{inner}.{leaf}")
+            imps = sorted({edge} | set(rnd.sample([(f"r.{sib}.{leaf}", f"r.c0.{other}"), (f"r.c0.{other}", f"r.{sib}.{leaf}"), (f"r.c0.{other}", f"r.c0.{inner}.{leaf}")], rnd.randint(0, 2))))
+            members = ["r.c0", f"r.{sib}", f"r.c0.{inner}"]
+            rnd.shuffle(members)
+            kind_ = rnd.choice(["sub", "sub", "named"])
+            cfg = {"verb": "should_not", "dir": d_, "exc": False, "subs": [(kind_, m) for m in members], "objs": [], "anything": True}
+            acc.count("anything_batches_with_a_nested_pair_and_a_name_extending_sibling")
+        elif rnd.random() < 0.2:
             cfg = {"verb": "should_not", "dir": rnd.choice(rrule.DIRS), "exc": False, "subs": [(skind, s) for s in subs], "objs": [], "anything": True}
         else:
             cfg = {"verb": rnd.choice(rrule.VERBS), "dir": rnd.choice(rrule.DIRS), "exc": rnd.random() < 0.5, "subs": [(skind, s) for s in subs], "objs": [(okind, o) for o in objs], "anything": False}
@@ -394,6 +409,8 @@ def floors(acc, tier):
     for k, n in (("rules", 500), ("layers", 300), ("labels", 200), ("scans", 30)):
         if acc.counters[f"pairs_with_collision_{k}"] < n:
             why.append(f"pairs with a prefix/substring collision for {k}: only {acc.counters[f'pairs_with_collision_{k}']}")
+    if acc.counters["anything_batches_with_a_nested_pair_and_a_name_extending_sibling"] < 30:
+        why.append("too few 'anything' batches over a nested pair plus a sibling whose name extends the parent's")
     if acc.counters["scan_pairs_with_module_path_below_root"] < 10:
         why.append("too few scan pairs with module_path below root")
     return why
